@@ -3,7 +3,7 @@ import copy
 
 from .schema import ENUMS, SCHEMA, F, subclasses
 
-KEYS = ["a", "b", "c", "k1", "key", "x", "items", "child", "zz", "A", "a_b", "n0"]
+KEYS = ["a", "b", "c", "k1", "key", "x", "items", "child", "zz", "A", "a_b", "n0", "d1/dev", "d2/dev"]  # the last two: identifiers with a separator and the same last component (dataset ids)
 # printable characters most likely to confuse a concatenation; no control characters (C03 domain)
 ALPHA = list("abcxyz019.:-_/\\'\" =,[]{}()#é漢😀") + ["child", "items", "s", "i", "ab", "ba"]
 HOSTILE_INTS = [0, 1, -1, 2, 7, 3, 255, 256, 2**31, 2**63 - 1, -(2**63), 1234567]
